@@ -1363,7 +1363,7 @@ fn execute(cfg: &E2Cfg, cmds: &[E2Cmd], keep_log: bool, prop: &str) -> (Outcome,
     let out = crate::common::guarded(|| {
         rt.block_on(async {
             let mut run = Run::new(cfg.clone(), keep_log).await;
-            let mut violation = None;
+            let mut violation: Option<Violation> = None;
             for c in cmds {
                 if let Err(v) = run.apply(c).await {
                     violation = Some(v);
@@ -1377,6 +1377,16 @@ fn execute(cfg: &E2Cfg, cmds: &[E2Cmd], keep_log: bool, prop: &str) -> (Outcome,
             }
             let net = run.net.lock().unwrap();
             let mut o = Outcome { trace: net.trace.0, stats: net.stats.clone(), steps: run.step as u64, sim_ms: net.now(), nontrivial: run.nontrivial, ..Default::default() };
+            // what a server hands to its socket is also C08's business (every emitted message
+            // decodes, consuming exactly all of its bytes)
+            if prop == "C08" {
+                if let Some(v) = violation.as_mut() {
+                    if v.code == "C19.garbled_send" {
+                        v.code = "C08.emitted_bytes".into();
+                        v.property = "C08".into();
+                    }
+                }
+            }
             match violation {
                 Some(v) if v.property == prop => o.violation = Some(v),
                 Some(v) => o.foreign_abort = Some(format!("{}: {}", v.code, v.detail)),
